@@ -1,6 +1,6 @@
 From Coq Require Import List NArith ZArith Bool.
 Import ListNotations.
-Require Import Parser SBase SPrim SDir SScalar SFetch Pipe.
+Require Import Parser SBase SPrim SDir SScalar SFetch Pipe Positions.
 Open Scope N_scope.
 
 Section Inv.
@@ -34,20 +34,6 @@ Definition inv_code (s : sc I) : N :=
   (if inv1 s then 0 else 1) + (if inv2 s then 0 else 2) + (if inv3 s then 0 else 4) + (if inv4 s then 0 else 8).
 End Inv.
 
-(* position recount *)
-Fixpoint pos_go (s : list N) (n : nat) (line col : N) : N * N :=
-  match n, s with
-  | O, _ => (line, col)
-  | S n, c :: r =>
-      if (c =? 13) then
-        match n, r with
-        | S n', 10 :: r' => pos_go r' n' (line + 1) 0
-        | O, 10 :: _ => (line, col + 1)     (* between CR and LF *)
-        | _, _ => pos_go r n (line + 1) 0
-        end
-      else if (c =? 10) then pos_go r n (line + 1) 0 else pos_go r n line (col + 1)
-  | S _, [] => (line, col)
-  end.
 Definition mark_ok (orig : list N) (s : sc strin) : bool :=
   let len := length orig in
   let rem := length (si_chars (sc_in s)) in
@@ -101,4 +87,4 @@ Fixpoint scan_chk (fuel : nat) (s : sc strin) (bad : N) : N :=
   end.
 End Chk.
 Definition run_chk (s : list N) : N :=
-  let F := (length s + 10)%nat in scan_chk F s (4 * F + 20) (init_sc {| si_chars := s; si_look := 0 |}) 0.
+  let F := (2 * length s + 10)%nat in scan_chk F s (4 * F + 20) (init_sc {| si_chars := s; si_look := 0 |}) 0.
